@@ -192,6 +192,13 @@ def directed_chains():
     chain("directed:add-and-remove-optional-field", f, f + [["e", ["opt", P("string")]]], f[:3] + [["e", ["opt", P("string")]]])
     chain("directed:add-and-remove-required-field", f, f[:1] + [["z", ["vec", P("uint8"), None]]] + f[1:], f[1:])
     chain("directed:widen-and-narrow-integers", f, [["a", P("int64")]] + f[1:], [["a", P("int8")]] + f[1:])
+    # an unsigned integer widened to a *signed* wider one (and a signed one to a wider signed one): the wire encodings differ (plain / zig-zag varint),
+    # at a field, a vector, a step and a stream
+    uw0 = [["a", P("uint32")], ["b", P("uint16")], ["c", P("int16")], ["v", ["vec", P("uint16"), None]], ["o", ["opt", P("uint32")]]]
+    uw1 = [["a", P("int64")], ["b", P("int32")], ["c", P("int64")], ["v", ["vec", P("int64"), None]], ["o", ["opt", P("int64")]]]
+    chain("directed:unsigned-widened-to-signed", uw0, uw1,
+          steps_list=[[["h", ["ref", "R"], False], ["s", ["ref", "R"], True], ["n", P("uint16"), False], ["m", P("uint32"), True], ["w", ["vec", P("uint32"), None], False]],
+                      [["h", ["ref", "R"], False], ["s", ["ref", "R"], True], ["n", P("int32"), False], ["m", P("int64"), True], ["w", ["vec", P("int64"), None], False]]])
     # same width, other signedness: the upper half of the unsigned range and the negative numbers have no counterpart
     chain("directed:same-width-sign-change-32", f, [["a", P("uint32")]] + f[1:], [["a", P("int32")]] + f[1:], [["a", P("uint32")]] + f[1:])
     chain("directed:same-width-sign-change-64-8", [["a", P("uint64")], ["b", P("uint8")]], [["a", P("int64")], ["b", P("int8")]], [["a", P("uint64")], ["b", P("uint8")]])
